@@ -81,6 +81,17 @@ void
 harness(void)
 {
 	const char *w = WORD;
+#ifdef FAILK
+	{
+		extern int env_alloc_fail_at, env_alloc_count, env_alloc_failed, env_alloc_live;
+		env_alloc_fail_at = env_alloc_count + FAILK;
+		CHECK(nni_taskq_init(&tq, 2) == NNG_ENOMEM && env_alloc_failed, "a task queue that cannot be allocated is reported as NNG_ENOMEM");
+		CHECK(env_alloc_live == 0 && env_locks_held == 0, "nothing is leaked, no lock held");
+		WITNESS("allocation failure");
+		WITNESS("end");
+		return;
+	}
+#endif
 	CHECK(nni_taskq_init(&tq, 1) == 0, "taskq_init");
 	for (int i = 0; i < NT; i++)
 		nni_task_init(&T[i], tq, (i == NT - 1 && NT > 1
